@@ -34,6 +34,14 @@ type LimCase struct {
 	Peers     []LimPeer `json:"peers"`
 	Kinds     []int     `json:"kinds"`   // RPC kind per request, cycled
 	HoldUS    int       `json:"hold_us"` // time the handlers are held after the expected level is reached
+	// Order: how the two messages of a request (RPC id, request body) of
+	// concurrent requests are laid out on one connection.
+	//   0 = contiguous (id and body of a request are written back to back, as
+	//       when each request is issued after the previous one was sent);
+	//   1 = free (every request has its own goroutine, as the syncer's own
+	//       client code does when it relays and syncs concurrently);
+	//   2 = scripted worst case: all ids first, then the bodies in reverse.
+	Order int `json:"order,omitempty"`
 }
 
 func (p LimPeer) ip() string { return fmt.Sprintf("127.%d.7.%d", 40+p.Subnet, p.Host) }
@@ -58,6 +66,7 @@ func genLim(t *rapid.T) LimCase {
 		}
 		c.Peers = append(c.Peers, p)
 	}
+	c.Order = rapid.SampledFrom([]int{0, 0, 0, 1, 1, 2}).Draw(t, "order")
 	nk := rapid.IntRange(1, 5).Draw(t, "nkinds")
 	for i := 0; i < nk; i++ {
 		c.Kinds = append(c.Kinds, rapid.IntRange(0, 2).Draw(t, "kind"))
@@ -78,6 +87,7 @@ type limReq struct {
 }
 
 func runLim(c LimCase, cs *kit.CaseStats) error {
+	c.Order = mod(c.Order, 3)
 	if c.PerPeer < 1 || len(c.Peers) == 0 {
 		return nil // outside the documented domain
 	}
@@ -137,6 +147,7 @@ func runLim(c LimCase, cs *kit.CaseStats) error {
 	}
 	sort.Strings(groupKeys)
 	cs.Classf("subnets=%d", len(groups))
+	cs.Classf("request-layout=%s", []string{"contiguous", "free", "ids-first"}[mod(c.Order, 3)])
 	if c.PerSubnet <= 0 {
 		cs.Class("per-subnet=disabled")
 	}
@@ -182,27 +193,77 @@ func runLim(c LimCase, cs *kit.CaseStats) error {
 		var written atomic.Int64
 		reqs := make([]*limReq, 0, total)
 		var wg sync.WaitGroup
+		connMu := make([]sync.Mutex, len(c.Peers))
+		mkObj := func(r *limReq) gateway.Object {
+			kind := 0
+			if len(c.Kinds) > 0 {
+				kind = c.Kinds[r.seq%len(c.Kinds)]
+			}
+			switch kind {
+			case 1:
+				return &gateway.RPCSendTransactions{Index: types.ChainIndex{Height: 1, ID: p2px.TagID(r.peer, r.seq)}, Hashes: []types.Hash256{{1}}}
+			case 2:
+				return &gateway.RPCSendHeaders{Index: types.ChainIndex{ID: genesisID}, Max: p2px.TagMax(r.peer, r.seq)}
+			}
+			return &gateway.RPCSendV2Blocks{History: []types.BlockID{p2px.TagID(r.peer, r.seq)}, Max: 3}
+		}
 		for i := range c.Peers {
+			var mine []*limReq
 			for k := 0; k < n[i]; k++ {
 				r := &limReq{peer: i, seq: seq}
-				kind := 0
-				if len(c.Kinds) > 0 {
-					kind = c.Kinds[seq%len(c.Kinds)]
-				}
 				seq++
 				reqs = append(reqs, r)
+				mine = append(mine, r)
+			}
+			if c.Order == 2 {
+				// one writer: ids first, bodies in reverse; readers in parallel
 				wg.Add(1)
 				go func() {
 					defer wg.Done()
-					var obj gateway.Object
-					switch kind {
-					case 1:
-						obj = &gateway.RPCSendTransactions{Index: types.ChainIndex{Height: 1, ID: p2px.TagID(r.peer, r.seq)}, Hashes: []types.Hash256{{1}}}
-					case 2:
-						obj = &gateway.RPCSendHeaders{Index: types.ChainIndex{ID: genesisID}, Max: p2px.TagMax(r.peer, r.seq)}
-					default:
-						obj = &gateway.RPCSendV2Blocks{History: []types.BlockID{p2px.TagID(r.peer, r.seq)}, Max: 3}
+					streams := make([]*gateway.Stream, len(mine))
+					objs := make([]gateway.Object, len(mine))
+					for k, r := range mine {
+						objs[k] = mkObj(r)
+						s, err := conns[r.peer].T.DialStream()
+						if err != nil {
+							r.err = err
+							continue
+						}
+						s.SetDeadline(time.Now().Add(3 * closeWatchdog))
+						streams[k] = s
+						r.err = s.WriteID(objs[k])
 					}
+					for k := len(mine) - 1; k >= 0; k-- {
+						if r := mine[k]; r.err == nil {
+							if r.err = streams[k].WriteRequest(objs[k]); r.err == nil {
+								r.written = true
+								written.Add(1)
+							}
+						}
+					}
+					var rg sync.WaitGroup
+					for k, r := range mine {
+						if streams[k] == nil {
+							continue
+						}
+						rg.Add(1)
+						go func() {
+							defer rg.Done()
+							defer streams[k].Close()
+							if r.err == nil {
+								r.err = streams[k].ReadResponse(objs[k])
+							}
+						}()
+					}
+					rg.Wait()
+				}()
+				continue
+			}
+			for _, r := range mine {
+				wg.Add(1)
+				go func() {
+					defer wg.Done()
+					obj := mkObj(r)
 					s, err := conns[r.peer].T.DialStream()
 					if err != nil {
 						r.err = err
@@ -210,10 +271,17 @@ func runLim(c LimCase, cs *kit.CaseStats) error {
 					}
 					defer s.Close()
 					s.SetDeadline(time.Now().Add(3 * closeWatchdog))
-					if err := s.WriteID(obj); err != nil {
-						r.err = err
-						return
-					} else if err := s.WriteRequest(obj); err != nil {
+					if c.Order == 0 {
+						connMu[r.peer].Lock()
+					}
+					err = s.WriteID(obj)
+					if err == nil {
+						err = s.WriteRequest(obj)
+					}
+					if c.Order == 0 {
+						connMu[r.peer].Unlock()
+					}
+					if err != nil {
 						r.err = err
 						return
 					}
@@ -233,6 +301,7 @@ func runLim(c LimCase, cs *kit.CaseStats) error {
 		}, closeWatchdog)
 		snap := gate.Snapshot()
 		if !reached {
+			stacks := p2px.ClipStacks(p2px.StacksWith("coreutils/syncer."), 16)
 			gate.Open()
 			wg.Wait()
 			if int(written.Load()) < total {
@@ -240,7 +309,7 @@ func runLim(c LimCase, cs *kit.CaseStats) error {
 				return nil
 			}
 			return fmt.Errorf("burst %d: with the handlers held, the expected number of concurrent handlers per subnet %v was not reached within %v (now %v): a slot was not returned by an earlier handler or drop. limits per-peer=%d per-subnet=%d, burst sizes %v\nsyncer goroutines:\n%s",
-				b, expect, closeWatchdog, snap.Cur, c.PerPeer, c.PerSubnet, n, p2px.ClipStacks(p2px.StacksWith("syncer.(*Syncer).runPeer"), 6))
+				b, expect, closeWatchdog, snap.Cur, c.PerPeer, c.PerSubnet, n, stacks)
 		}
 		p2px.Pause(c.HoldUS)
 		gate.Open()
@@ -334,3 +403,5 @@ var c18LimProp = kit.Prop[LimCase]{
 }
 
 func TestC18Limits(t *testing.T) { c18LimProp.Main(t) }
+
+func mod(i, n int) int { return ((i % n) + n) % n }
